@@ -15,3 +15,18 @@ def unit_tokenise():
         raise SliceError("tokeniser: a std:: / auto form without rewrite rule is left")
     t += f
     return t + '\n#include "h_tokenise.h"\n'
+
+def unit_argjoin():
+    """Value::parse_args(const std::vector<const char*>) of value.h: command-line arguments -> values, joining a bracket expression
+    that the shell split over several arguments"""
+    t = '#include "verif_std.h"\n#include "argjoin_env.h"\n'
+    f = block('value.h', r'^    static std::vector<Value> parse_args\(const std::vector<const char\*> args\) \{', trailing=None)
+    f = rewrite(f, [
+        (r'static std::vector<Value> parse_args\(const std::vector<const char\*> args\) \{', 'static verif_vallist verif_parse_args(const verif_argvec& args) {', 1),   # R-PARTIAL / R-TYPES
+        (r'std::vector<Value> result;', 'verif_vallist result;', 1),
+        (r'for \(auto& v : args\) \{', 'for (size_t verif_k = 0; verif_k < args.size(); ++verif_k) { const char* v = args[verif_k];', 1),   # R-RANGEFOR
+        (r'\bstrlen\(', 'verif_strlen(', None)])                                                                                  # R-LIBC (names)
+    if re.search(r'std::vector|\bauto\b', re.sub(r'//[^\n]*', '', f)):
+        raise SliceError("argument joiner: a std::vector / auto form without rewrite rule is left")
+    t += f
+    return t + '\n#include "h_argjoin.h"\n'
